@@ -347,6 +347,9 @@ def check_router_chain(ctx, model):
 
 def run(ctx):
     model = ctx.model()
+    from .poolvalue import check_fee_lookup_same_asset
+    check_fee_lookup_same_asset(ctx, model, "terraswap_pair", "C14-S1")
+    check_fee_lookup_same_asset(ctx, model, "stableswap_3pool", "C14-S1")
     check_trio_directions(ctx, model)
     check_pair_directions(ctx, model)
     check_sim_vs_swap(ctx, model, "terraswap_pair", 7)
